@@ -290,6 +290,41 @@ def run(ctx):
                 continue
             seen.add(kshort)
             ctx.violation(bad[:400], '=== replay\n' + '\n'.join(lines) + '\n--- ' + bad + '\n--- C++ output\n' + '\n'.join(l[:400] for l in lh) + '\n')
+    # ---- IPv6 extension headers added through the API, every data length 0..24, in front of UDP ----
+    xs = []
+    for n in range(0, 25):
+        for rep in range(2 if quick else 12):
+            hdrs = [(rng.choice([0, 43, 60]) if j or rng.random() < 0.5 else 0, bytes(rng.randrange(256) for _ in range(n if j == 0 else rng.randrange(0, 25)))) for j in range(rng.choice([1, 1, 2, 3]))]
+            hdrs = [(t if (t != 0 or j == 0) else 60, d) for j, (t, d) in enumerate(hdrs)]
+            pl = bytes(rng.randrange(256) for _ in range(rng.choice([1, 8, 33])))
+            lines = ['new IPv6'] + ['ext6 0 %d x%s' % (t, d.hex()) for t, d in hdrs] + ['push UDP', 'set 1 sport 1234', 'set 1 dport 53', 'raw x' + pl.hex(), 'ser', 'rt IPv6']
+            xs.append(('x%d' % len(xs), lines, hdrs, pl))
+    xh = C.run_harness('h_pkt', [(a, b) for a, b, _, _ in xs])
+    ctx.cov['evaluations'] += len(xs)
+    for sid, lines, hdrs, pl in xs:
+        lh = [l for l in xh.get(sid, []) if not l.startswith('!~')]
+        bad = None
+        if any(l.startswith('!!') for l in lh):
+            bad = 'IPv6 extension headers: %s' % [l for l in lh if l.startswith('!!')][0]
+        elif len(lh) < 2 or not lh[-2].startswith('Q '):
+            bad = 'IPv6 with extension headers %s: serialize/re-parse fails: %s' % ([(t, len(d)) for t, d in hdrs], [x[:30] for x in lh[-2:]])
+        else:
+            q = lh[-2]
+            m = re.search(r' headers=\{([^}]*)\}', q.split(' | ')[0])
+            got = [(int(a), bytes.fromhex(c)) for a, b, c in re.findall(r'\((\d+),(\d+),x([0-9a-f]*)\)', m.group(1))] if m else None
+            want = [(t, d + bytes((-(len(d) + 2)) % 8)) for t, d in hdrs]
+            layers = [x.split(' ')[0] for x in q[2:].split(' | ')]
+            if got != want:
+                bad = 'IPv6 extension headers %s come back from the wire as %s' % ([(t, d.hex()) for t, d in want], [(t, d.hex()) for t, d in (got or [])])
+            elif layers != ['IPv6', 'UDP', 'RawPDU'] or ('payload=x' + pl.hex()) not in q:
+                bad = 'IPv6 with extension headers %s: the layers behind them come back as %s' % ([(t, len(d)) for t, d in hdrs], layers)
+            else:
+                nontriv.add(tuple(lines))
+        if bad:
+            kshort = re.sub(r'x[0-9a-f]+|\d+', 'N', bad)[:60]
+            if kshort not in seen:
+                seen.add(kshort)
+                ctx.violation(bad[:400], '=== replay\n' + '\n'.join(lines) + '\n--- ' + bad + '\n--- C++ output\n' + '\n'.join(l[:400] for l in lh) + '\n')
     h = C.run_harness('h_pkt', scripts)
     ctx.cov['evaluations'] += len(scripts)
     import json
